@@ -63,7 +63,7 @@ def run(ctx):
         for pf in ("asyncio", "trio"):
             extra.append({"seed": ctx.seed, "jitter": 0.0, "payloads": {"f": {"flavour": ff}, "c1": {"flavour": pf, "cleanup": 2}, "c2": {"flavour": pf, "cleanup": 1}},
                           "script": [{"op": "adopt", "p": "f"}, {"op": "adopt", "p": "c1"}, {"op": "accept"}, {"op": "wait_running"}, {"op": "adopt", "p": "c2", "ctx": "thread"},
-                                     {"op": "wait_start", "p": "f"}, {"op": "wait_start", "p": "c1"}, {"op": "wait_start", "p": "c2"}, {"op": "park", "p": "c1"}, {"op": "park", "p": "c2"},
+                                     {"op": "wait_start", "p": "f"}, {"op": "wait_start", "p": "c1"}, {"op": "wait_start", "p": "c2"}, {"op": "park_payload", "p": "c1"}, {"op": "park_payload", "p": "c2"},
                                      {"op": "gc"}, {"op": "sleep", "ms": 30}, {"op": "gc"}, {"op": "end", "p": "f", "how": "exc:UserExc"}, {"op": "wait_end"}], "shape": "targeted-parked-gc"})
     # a thread payload blocked in a synchronous execute() of a coroutine that does not end on its
     # own, while shutdown() / a failure terminates the runtime: the coroutine payloads are still
